@@ -24,6 +24,28 @@ use std::ops::DerefMut;
 use std::sync::atomic::Ordering;
 use std::time::{SystemTime, UNIX_EPOCH};
 
+// numbers reported by LUSERS
+#[derive(Clone, Copy)]
+pub(super) struct LUsersCounts {
+    users: usize,
+    invisible_users: usize,
+    operators: usize,
+    channels: usize,
+    max_users: usize,
+}
+
+impl LUsersCounts {
+    pub(super) fn new(state: &VolatileState) -> Self {
+        LUsersCounts {
+            users: state.users.len(),
+            invisible_users: state.invisible_users_count,
+            operators: state.operators_count,
+            channels: state.channels.len(),
+            max_users: state.max_users_count,
+        }
+    }
+}
+
 impl super::MainState {
     pub(super) async fn process_motd<'a>(
         &self,
@@ -177,14 +199,23 @@ impl super::MainState {
         &self,
         conn_state: &mut ConnState,
     ) -> Result<(), Box<dyn Error>> {
-        let state = self.state.read().await;
+        let counts = LUsersCounts::new(&*self.state.read().await);
+        self.send_lusers(conn_state, counts).await
+    }
+
+    // send LUSERS replies with given counts (they should be taken while state is locked).
+    pub(super) async fn send_lusers(
+        &self,
+        conn_state: &mut ConnState,
+        counts: LUsersCounts,
+    ) -> Result<(), Box<dyn Error>> {
         let client = conn_state.user_state.client_name();
         self.feed_msg(
             &mut conn_state.stream,
             RplLUserClient251 {
                 client,
-                users_num: state.users.len() - state.invisible_users_count,
-                inv_users_num: state.invisible_users_count,
+                users_num: counts.users - counts.invisible_users,
+                inv_users_num: counts.invisible_users,
                 servers_num: 1,
             },
         )
@@ -193,7 +224,7 @@ impl super::MainState {
             &mut conn_state.stream,
             RplLUserOp252 {
                 client,
-                ops_num: state.operators_count,
+                ops_num: counts.operators,
             },
         )
         .await?;
@@ -209,7 +240,7 @@ impl super::MainState {
             &mut conn_state.stream,
             RplLUserChannels254 {
                 client,
-                channels_num: state.channels.len(),
+                channels_num: counts.channels,
             },
         )
         .await?;
@@ -217,7 +248,7 @@ impl super::MainState {
             &mut conn_state.stream,
             RplLUserMe255 {
                 client,
-                clients_num: state.users.len(),
+                clients_num: counts.users,
                 servers_num: 1,
             },
         )
@@ -226,8 +257,8 @@ impl super::MainState {
             &mut conn_state.stream,
             RplLocalUsers265 {
                 client,
-                clients_num: state.users.len(),
-                max_clients_num: state.max_users_count,
+                clients_num: counts.users,
+                max_clients_num: counts.max_users,
             },
         )
         .await?;
@@ -235,8 +266,8 @@ impl super::MainState {
             &mut conn_state.stream,
             RplGlobalUsers266 {
                 client,
-                clients_num: state.users.len(),
-                max_clients_num: state.max_users_count,
+                clients_num: counts.users,
+                max_clients_num: counts.max_users,
             },
         )
         .await?;
